@@ -1,6 +1,6 @@
 // Stub wasm module for C08: a real WebAssembly.Memory, a bump allocator honouring alignment, and a recording Proxy for every export.
 const memory = new WebAssembly.Memory({ initial: 64 });
-const state = { next: 0x10000, allocs: [], calls: [], ret: {} };
+const state = { next: 0x10000, allocs: [], calls: [], ret: {}, hooks: {} };
 function diplomat_alloc(size, align) {
     align = Math.max(1, align);
     let p = Math.ceil(state.next / align) * align;
@@ -15,7 +15,7 @@ const wasm = new Proxy(base, {
     get(t, name) {
         if (name in t) return t[name];
         if (typeof name !== "string") return undefined;
-        return (...args) => { state.calls.push({ name, args }); return state.ret[name]; };
+        return (...args) => { state.calls.push({ name, args }); if (state.hooks[name]) return state.hooks[name](args); return state.ret[name]; };
     },
     has(t, name) { return true; }
 });
